@@ -177,7 +177,11 @@ def gen_wf(rng, kind, n=None):
 			reason = rng.choice([b'OK', b'Not Found', b'Two Words Here', b'X', b"I'm a teapot", b'OK', b'Non-Authoritative Information', b''])  # reason-phrase = *( HTAB / SP / VCHAR / obs-text ): may be empty
 			line = b'HTTP/%d.%d %d %s' % (ver + (code, reason))
 			gt.update(status=code, reason=reason.decode())
-			has_body = True
+			# RFC 7230 3.3.3 rule 1: 1xx, 204 and 304 responses end with their header section whatever fields they carry;
+			# 1xx and 204 must not carry Content-Length (3.3.2), a 304 may (the length of the representation it did not send)
+			has_body = code not in (100, 204, 304)
+			if code == 304 and rng.random() < .4:
+				gt['rep_length'] = rng.choice([1, 5, 120])
 		fields = []
 		if kind == 'server':
 			fields.append((rng.choice([b'Host', b'host', b'HOST']), hostv))
@@ -201,7 +205,8 @@ def gen_wf(rng, kind, n=None):
 		elif has_body and (payload or kind == 'server' or rng.random() < .8):
 			fields.append((rng.choice([b'Content-Length', b'content-length']), b'%d' % len(payload)))
 		elif kind == 'client' and not payload:
-			pass
+			if gt.get('rep_length'):
+				fields.append((b'Content-Length', b'%d' % gt['rep_length']))
 		rng.shuffle(fields)
 		if kind == 'server' and not any(f[0].lower() == b'host' for f in fields):
 			fields.insert(0, (b'Host', hostv))
